@@ -5,7 +5,8 @@ namespace Ldlm.Core
 variable {M : Type} {o : MapOps M} {c : Cfg}
 
 theorem init_inv' (ho : o.Lawful) : Inv' o c (init o c) := by
-  refine ⟨?_, ?_, ?_, ?_, ?_, ?_, ?_, ?_, ?_, ?_⟩
+  refine ⟨?_, ?_, ?_, ?_, ?_, ?_, ?_, ?_, ?_, ?_, ?_⟩
+  · simp [init, AMap.Uniq]
   · intro n r hg; simp only [init, ho.get_empty] at hg; cases hg
   · intro n r hg; simp only [init, ho.get_empty] at hg; cases hg
   · intro tk tm hm; simp [init] at hm
